@@ -133,12 +133,19 @@ NEXT_FOR_CALLER = [
     ('post', 'ensures', 'verif_exc == 0 || *begin == __CPROVER_old(*begin)'),
     ('frame', 'assigns', '*begin, verif_exc'),
 ]
-PIPELINES.append(Pipeline('U3_escape_safety_any_string', units=[U_len, U_next, U_hex2, U_hex4, U_esc_abs], stubs=['vstr_abs.h'],
+HEX_STUBS = '''
+/* append_2_hex_digits / append_min_4_hex_digits as the escaper uses them: they only append to the output (their digits are decided in the U4 pipelines on the real bodies) */
+void append_2_hex_digits(vstr* out, uint32_t value, const char* const hex_digits) __CPROVER_requires(__CPROVER_rw_ok(out, sizeof(*out))) __CPROVER_assigns(out->size) __CPROVER_ensures(out->size == __CPROVER_old(out->size) + 2);
+void append_min_4_hex_digits(vstr* out, uint32_t value, const char* const hex_digits) __CPROVER_requires(__CPROVER_rw_ok(out, sizeof(*out))) __CPROVER_assigns(out->size)
+  __CPROVER_ensures(out->size >= __CPROVER_old(out->size) + 4 && out->size <= __CPROVER_old(out->size) + 8);
+'''
+U_esc_abs2 = Unit(SU, 'append_utf8_encoded_string', strs=['out'], post=[(r'(?<!\w)strlen\(', 'verif_strlen('), (r'append_(2|min_4)_hex_digits\(\(\*out\), ', r'append_\1_hex_digits(out, ')], witness=[('data', 'ghost_n + 1', 24)])
+PIPELINES.append(Pipeline('U3_escape_safety_any_string', units=[U_len, U_next, U_esc_abs2], stubs=['vstr_abs.h'], prelude=HEX_STUBS,
                           contracts={'append_utf8_encoded_string': ESC_CONTRACT, 'next_utf8_codepoint': NEXT_FOR_CALLER},
                           loops={'append_utf8_encoded_string': ESC_LOOP}, maythrow={'next_utf8_codepoint': False},
-                          replace=['next_utf8_codepoint', 'vstr_push_char', 'vstr_append_range', 'verif_strlen'],
+                          replace=['next_utf8_codepoint', 'vstr_push_char', 'vstr_append_range', 'verif_strlen', 'append_2_hex_digits', 'append_min_4_hex_digits'],
                           harness='void harness(void) { vstr* o; const char* d; append_utf8_encoded_string(o, d); __CPROVER_assert(verif_exc != 0, "canary:normal"); __CPROVER_assert(verif_exc == 0, "canary:throw"); }',
-                          enforce='append_utf8_encoded_string', canaries=['canary:normal', 'canary:throw'], noflags=NOCONV, timeout=1500, solver='kissat', tier='thorough', object_bits=10,
+                          enforce='append_utf8_encoded_string', canaries=['canary:normal', 'canary:throw'], noflags=NOCONV, timeout=900, object_bits=10,
                           replay=('c14_escape', lambda cex, o: ['str', hexs(cex.witness('append_utf8_encoded_string').split(b'\\0')[0])]),
                           note='whatever bytes the string contains, the escaper never reads beyond its terminating NUL; termination (decreases)'))
 # the caller-side contract of next_utf8_codepoint is itself enforced on the real body
